@@ -65,6 +65,10 @@ def corner_programs():
                    ("l", (("english", "x"), ("german", "y")))]),
         A.MsgSwitch("message_SwitchTalk", ("c", "$K"), [(("i", 1), ("s", "one // x")), (("i", 2), ("l", (("english", "/*"),)))], ("s", "d")),
         A.Ctrl("end")])])
+    yield ("corner", "newline-strings"), A.Program([A.Routine("def", 0, [
+        A.Op("s", [("s", "two\nlines"), ("i", 1), ("s", "a\n\nc"), ("l", (("english", "x\ny"), ("german", "one")))]),
+        A.MsgSwitch("message_SwitchTalk", ("c", "$K"), [(("i", 1), ("s", "first\nsecond\nthird"))], ("s", "d\ne")),
+        A.Ctrl("end")])])
     yield ("corner", "routines"), A.Program([
         A.Routine("for", 0, [A.Op("a"), A.Label("L"), A.Jump("L")], target_kind="actor", target=("c", "ACTOR_X")),
         A.Routine("for", 1, [A.Op("b"), A.Ctrl("hold")], target_kind="object", target=("i", 3)),
@@ -120,7 +124,70 @@ def respell_triple(text, q):
     return GL.join(out, GL.default_seps(out))
 
 
+def respell_multiline(text, q):
+    """Single-line strings with \\n escapes (and nothing else that needs care) re-spelled as multi-line literals that span
+    several source lines: content lines equally indented, closing quotes on a line of their own."""
+    import re
+    toks = GL.tokenize(text)
+    out = []
+    changed = False
+    for i, t in enumerate(toks):
+        in_posmark = i >= 2 and toks[i - 1] == "<" and toks[i - 2] == "Position"
+        m = re.fullmatch(r"'((?:[^'\\\n\"]|\\n)+)'", t)
+        if m and "\\n" in t and not in_posmark:
+            lines = m.group(1).split("\\n")
+            if all(ln == "" or not ln.startswith(" ") for ln in lines) and lines[0] != "" and lines[-1] != "":
+                out.append(q * 3 + "\n" + "".join("      " + ln + "\n" for ln in lines[:-1]) + "      " + lines[-1] + "\n    " + q * 3)
+                changed = True
+                continue
+        out.append(t)
+    return GL.join(out, GL.default_seps(out)) if changed else None
+
+
+# groups of texts that differ only in a spelling the property lists and that no renderer style produces
+SPELLING_GROUPS = [
+    # decimals without / with redundant leading zeros (and trailing zeros), positive and negative, as fixed-point arguments ...
+    ["def 0 { a(0.5, 1); }", "def 0 { a(.5, 1); }", "def 0 { a(00.5, 1); }", "def 0 { a(000.5, 0x1); }"],
+    ["def 0 { a(-0.5); }", "def 0 { a(-.5); }", "def 0 { a(-00.5); }"],
+    ["def 0 { a(-1.25, 12.5); }", "def 0 { a(-01.25, 012.5); }", "def 0 { a(-001.25, 0012.5); }"],
+    # ... and as position-mark coordinates
+    ["def 0 { a(Position<'m', 0.5, 1>); }", "def 0 { a(Position<'m', .5, 1>); }", "def 0 { a(Position<'m', 00.5, 0b1>); }",
+     'def 0 { a(Position<"m", 0.5, 1,>); }' if False else "def 0 { a(Position<'m', 0.50, 1>); }"],
+    ["def 0 { a(Position<'m', -0.5, 1>); }", "def 0 { a(Position<'m', -.5, 1>); }", "def 0 { a(Position<'m', -00.5, 1>); }"],
+    ["def 0 { a(Position<'m', 7.5, -2.0>); }", "def 0 { a(Position<'m', 07.5, -02.0>); }", "def 0 { a(Position<'m', 007.50, -2.00>); }"],
+    ["def 0 { a(Position<'m', 3, 4>); }", "def 0 { a(Position<'m', 0x3, 0b100>); }", "def 0 { a(Position<\"m\", 3.0, 4.0>); }"],
+    # integers in every base, in every kind of place
+    ["def 0 { if ($A[10]) { a(-10); } $B = 10; switch ($C) { case 10: b(); break; case > 10: c(); } } def 1 for actor 10 { d(10); }",
+     "def 0x0 { if ($A[0xA]) { a(-0b1010); } $B = 0o12; switch ($C) { case 0XA: b(); break; case > 0B1010: c(); } } def 0b1 for actor 0O12 { d(0xa); }",
+     "def 0o0 { if ($A[0b1010]) { a(-0o12); } $B = 0xA; switch ($C) { case 0o12: b(); break; case > 0xa: c(); } } def 0x1 for_actor(0b1010) { d(0O12); }"],
+]
+
+
+def run_group(cid, group):
+    sigs = []
+    viols = []
+    for t in group:
+        try:
+            sigs.append(signature(impl.compile_es(t)))
+        except Exception as e:
+            sigs.append(None)
+            viols.append({"kind": "variant-rejected:spelling", "detail": {"variant": t, "base": group[0], "text": t,
+                                                                          "error": f"{type(e).__name__}: {e}"[:300]}})
+    for t, sg in zip(group[1:], sigs[1:]):
+        if sg is not None and sigs[0] is not None and sg != sigs[0]:
+            viols.append({"kind": "variant-differs:spelling", "detail": {"variant": t, "base": group[0], "text": t,
+                                                                         "base_sig": repr(sigs[0])[:600], "variant_sig": repr(sg)[:600]}})
+    if sigs[0] is None:
+        viols = [{"kind": "base-of-spelling-group-rejected", "detail": {"base": group[0]}}] + viols
+    res = {"outcome": "violation" if viols else "ok", "nt": cid, "extra": {"variants": len(group) - 1}}
+    if viols:
+        res["viol"] = viols[:4]
+    return res
+
+
 def run_case(cid, prog):
+    if cid[0] == "group":
+        return run_group(cid, prog)
     text = A.render(prog)
     try:
         base = signature(impl.compile_es(text))
@@ -158,6 +225,15 @@ def run_case(cid, prog):
     check(("spelling", "decimals"), respell_decimals(text))
     check(("spelling", "triple-single"), respell_triple(text, "'"))
     check(("spelling", "triple-double"), respell_triple(text, '"'))
+    for q in ("'", '"'):
+        ml = respell_multiline(text, q)
+        if ml is not None:
+            check(("spelling", "multi-line", q), ml)
+            # the same file saved with other line ends (inside the literals too)
+            check(("lineends", "crlf", q), ml.replace("\n", "\r\n"))
+            check(("lineends", "cr", q), ml.replace("\n", "\r"))
+    check(("lineends", "crlf"), text.replace("\n", "\r\n"))
+    check(("lineends", "cr"), text.replace("\n", "\r"))
     res = {"outcome": "violation" if viols else "ok", "nt": cid if len(tokens) > 12 else None,
            "extra": {"variants": nvar, "tokens": len(tokens)}}
     if viols:
@@ -177,7 +253,9 @@ def run(tier, seed):
     impl.warm()
 
     def make_cases():
-        return base_programs(seed, tier)
+        yield from base_programs(seed, tier)
+        for i, g in enumerate(SPELLING_GROUPS):
+            yield ("group", i), g
     total = runner.explore(make_cases, run_case, timeout=120.0)
     return runner.finish(
         ID, LEVEL, tier, seed, total, t0,
@@ -188,7 +266,8 @@ def run(tier, seed):
              "re-lexing allows it, 9 EOF suffixes (incl. unterminated block comment), 7 prefixes, all-glued / all-comments / "
              "all-newlines / all-CRLF / all-joined" + ("" if tier == "quick" else ", adjacent boundary pairs x 6x6 separators") +
              ", and 11 re-spellings (section sign labels, for_actor(X), trailing commas, hex/oct/bin integers, leading-zero "
-             "decimals, double / triple quotes, one-line layout); oracle: ops, jump targets as (routine, index), routine "
+             "decimals, double / triple / multi-line quotes, CR LF and CR line ends, one-line layout), plus 8 hand-written groups of spellings "
+             "(decimals with and without leading zeros as arguments and as position-mark coordinates, integer bases in every place); oracle: ops, jump targets as (routine, index), routine "
              "tables and position-mark values equal the base's; an evaluation is one base program (variants in counters.variants); "
              "non-trivial = base with more than 12 tokens",
         assumptions=["token boundaries of the base text come from vf/gen_layout.tokenize (independent of the repository's lexer)"],
